@@ -356,7 +356,7 @@ func RunChild(in In, logPath string) {
 	c.sent = make([][]int, len(in.Addrs))
 	c.seen = make([]int, len(in.Addrs))
 	c.heldLbl = make([]bool, len(in.Addrs))
-	if in.Mode == "stress" {
+	if in.Mode == "stress" || in.Mode == "stress_connect" {
 		c.stress()
 		return
 	}
@@ -689,7 +689,22 @@ func (c *c26Child) stress() {
 	}
 	stop := int32(0)
 	var wg sync.WaitGroup
+	if c.in.Mode == "stress_connect" {
+		// replicas only CONNECT (fresh addresses, never fail): no close, so the only possible fault is the map one
+		go func() {
+			for i := 0; atomic.LoadInt32(&stop) == 0 && i < 60000; i++ {
+				f := &c26fast{addr: fmt.Sprintf("10.1.%d.%d:7000", i/250, i%250), fail: func() bool { return false }}
+				go func() { _ = c.srv.GetWALStream(nil, f) }()
+				if i%8 == 0 {
+					runtime.Gosched()
+				}
+			}
+		}()
+	}
 	for r := range c.in.Addrs {
+		if c.in.Mode == "stress_connect" {
+			break
+		}
 		wg.Add(1)
 		go func(r int) {
 			defer wg.Done()
